@@ -240,6 +240,10 @@ class Exec:
         if self.spec_mode:
             return
         if kind not in self.c.checks and kind in ("bounds", "overflow", "narrow", "divzero"):
+            if kind in ("bounds", "divzero") and self.f.lang == "cy":
+                # not an obligation of this contract, but Cython raises (IndexError / ZeroDivisionError)
+                # when it fails, so execution only continues when it holds
+                self.assume(formula)
             return
         line = getattr(node, "orig_line", None) or self.cur_line
         o = Obl(self.f.name, kind, text, z3.Implies(z3.And(*self.facts, self.guard), formula), line)
@@ -945,8 +949,12 @@ class Exec:
                 self.ev(a)
             return Val("none")
         if fn in ("np.min", "np.max"):
-            for a in n.args:
-                pass
+            if len(n.args) == 1 and isinstance(n.args[0], (ast.Tuple, ast.List)) and self.fm.mode == "R":
+                vals = [self.to_float(self.ev(e)) for e in n.args[0].elts]
+                acc = vals[0]
+                for v in vals[1:]:
+                    acc = z3.If(acc <= v, acc, v) if fn == "np.min" else z3.If(acc >= v, acc, v)
+                return Val("float", acc, PYFLOAT)
             return Val("float", self.fresh(fn.replace(".", "_"), self.fm.F), PYFLOAT)
         if fn == "__alloca__":
             nbytes = self.to_int(self.ev(n.args[0]))
@@ -1021,7 +1029,14 @@ class Exec:
         self.labels[key] = f
         if a.ndim > 1 and getattr(a, "contig", None) is not True and not a.fresh:
             self.oblige("contig", f"array {a.name.split('_')[0]} handed to C as raw pointer is C-contiguous",
-                        z3.BoolVal(False), node)
+                        self.contig_term(a), node)
+        # contents: every flat element is some element of the n-d array (row-major decomposition exists)
+        q = z3.Int(f"fq!{next(self.n)}")
+        comps = [z3.Function(f"{f.name}__ix{d}", I, I)(q) for d in range(a.ndim)]
+        self.facts.append(z3.ForAll([q], z3.Implies(
+            z3.And(q >= 0, q < ext),
+            z3.And(*[z3.And(c >= 0, c < s) for c, s in zip(comps, a.shape)],
+                   z3.Select(self.heap[f.id], q) == self.select(a, comps)))))
         return f
 
     def dtype_of(self, node):
@@ -1096,6 +1111,21 @@ class Exec:
                     c = z3.K(I, c)
                 self.heap[a.id] = c
                 return Val("none")
+            if name in ("min", "max") and self.fm.mode == "R" and not n.args and not n.keywords:
+                # NumPy semantics (assumed): a.min() <= every element <= a.max(); empty arrays raise ValueError
+                key = ("minmax", a.id, id(self.heap[a.id]))
+                if key not in self.labels:
+                    lo_, hi_ = self.fresh(a.name + "_min", Rl), self.fresh(a.name + "_max", Rl)
+                    qs = [z3.Int(f"mq{d}!{next(self.n)}") for d in range(a.ndim)]
+                    el = self.select(a, qs)
+                    if a.elem.kind != "float":
+                        el = z3.ToReal(el)
+                    self.facts.append(z3.ForAll(qs, z3.Implies(z3.And(*[z3.And(q >= 0, q < s_) for q, s_ in zip(qs, a.shape)]),
+                                                             z3.And(lo_ <= el, el <= hi_))))
+                    self.facts.append(lo_ <= hi_)
+                    self.labels[key] = (lo_, hi_)
+                lo_, hi_ = self.labels[key]
+                return Val("float", lo_ if name == "min" else hi_, PYFLOAT)
             if name in ("min", "max", "sum", "mean"):
                 return Val("float", self.fresh(name, self.fm.F), PYFLOAT)
         if recv.k == "obj":
